@@ -292,6 +292,7 @@ fn check_model(c: &mut Ctx, m: &Value, label: &str, out: &mut ItemOut) {
     }
     // deploy four times: stored model == given, version counts the deploys, one event per `on`
     let ex = c.sess.engine.executor();
+    let mut last_on = m["on"].clone();
     for k in 1..=4 {
         // the model changes between deploys: name and tag of the second and fourth deploy differ
         let mut wf = wf.clone();
@@ -301,6 +302,21 @@ fn check_model(c: &mut Ctx, m: &Value, label: &str, out: &mut ItemOut) {
             wf.tag = format!("tag{k}");
             m["name"] = json!(wf.name);
             m["tag"] = json!(wf.tag);
+        }
+        if k >= 3 {
+            // the third and fourth deploy declare one more start event, after the ones known already
+            let mut on = m["on"].as_array().cloned().unwrap_or_default();
+            on.push(json!({"id": "late-ev", "uses": "acts.event.manual"}));
+            m["on"] = json!(on);
+            match serde_json::from_value::<Workflow>(m.clone()) {
+                Ok(mut w3) => {
+                    w3.name = wf.name.clone();
+                    w3.tag = wf.tag.clone();
+                    wf = w3;
+                }
+                Err(e) => panic!("machinery: model with a late event does not parse: {e}"),
+            }
+            last_on = m["on"].clone();
         }
         if let Err(e) = ex.model().deploy(&wf) {
             c.viols.entry("deploy/rejected".into()).or_insert(format!("{label}: deploy of a valid model fails: {e}"));
@@ -342,7 +358,7 @@ fn check_model(c: &mut Ctx, m: &Value, label: &str, out: &mut ItemOut) {
         .query(&Query::new())
         .map(|p| p.rows.iter().filter(|e| e.mid == mid).map(|e| e.id.clone()).collect())
         .unwrap_or_default();
-    let want: Vec<String> = m["on"].as_array().cloned().unwrap_or_default().iter().map(|a| format!("{mid}:{}", a["id"].as_str().unwrap_or(""))).collect();
+    let want: Vec<String> = last_on.as_array().cloned().unwrap_or_default().iter().map(|a| format!("{mid}:{}", a["id"].as_str().unwrap_or(""))).collect();
     let (mut a, mut b) = (evs.clone(), want.clone());
     a.sort();
     b.sort();
